@@ -294,6 +294,9 @@ def _mk(w, c):
         return r
     if route == 'obj':
         return cls(w.cls('Bits')(bin=s), **kw)
+    if route == 'from_obj':
+        # construct from the (tracked) object given as the operand
+        return cls(w.objs[c['xs'][0]['id']], **kw)
     if route == 'uint':
         if n == 0:
             return cls(**kw)
@@ -1194,3 +1197,70 @@ def _packstruct(w, c):
 def _unpackstruct(w, c):
     r = T(w, c).unpack(_struct_fmt(c['sa'], c['ia'][0] if c['ia'] else 0))
     return Multi(r) if isinstance(r, list) else enc.OPAQUE
+
+
+# ---------------------------------------------------------------------------
+# serialisation and windows (C17, C15, C08)
+
+@op('tofile')
+def _tofile(w, c):
+    """write to a real file (sa[0]: 'path' | 'bytesio'), optionally with the chunk hook (ia[0] = chunk bits or NONE)"""
+    t = T(w, c)
+    how = c['sa'][0] if c['sa'] else 'path'
+    chunk = N(c['ia'][0]) if c['ia'] else None
+    old = os.environ.get('BITSTRING_VERIF_TOFILE_CHUNK_BITS')
+    if chunk is not None:
+        os.environ['BITSTRING_VERIF_TOFILE_CHUNK_BITS'] = str(chunk)
+    try:
+        if how == 'bytesio':
+            f = io.BytesIO()
+            t.tofile(f)
+            return f.getvalue()
+        w._filecount = getattr(w, '_filecount', 0) + 1
+        fn = os.path.join(w.tmpdir, f'o{os.getpid()}_{w._filecount}.bin')
+        with open(fn, 'wb') as f:
+            t.tofile(f)
+        with open(fn, 'rb') as f:
+            data = f.read()
+        os.remove(fn)
+        return data
+    finally:
+        if chunk is not None:
+            if old is None:
+                os.environ.pop('BITSTRING_VERIF_TOFILE_CHUNK_BITS', None)
+            else:
+                os.environ['BITSTRING_VERIF_TOFILE_CHUNK_BITS'] = old
+
+
+@op('mkwin')
+def _mkwin(w, c):
+    clsname, kind = c['sa'][0], c['sa'][1]
+    off, ln, pos = (N(x) for x in c['ia'][:3])
+    bits = c['xs'][0]['v']
+    cls = w.cls(clsname)
+    kw = {}
+    if off is not None:
+        kw['offset'] = off
+    if ln is not None:
+        kw['length'] = ln
+    if pos is not None:
+        kw['pos'] = pos
+    if kind == 'bitarray_kw':
+        return cls(bitarray=w.make_lit('bitarray', bits), **kw)
+    data = w.make_lit('bytes', bits)
+    if kind == 'bytes':
+        return cls(bytes=data, **kw)
+    if kind == 'bytearray':
+        return cls(bytes=bytearray(data), **kw)
+    if kind == 'bytesio':
+        return cls(io.BytesIO(data), **kw)
+    w._filecount = getattr(w, '_filecount', 0) + 1
+    fn = os.path.join(w.tmpdir, f'w{os.getpid()}_{w._filecount}.bin')
+    with open(fn, 'wb') as f:
+        f.write(data)
+    if kind == 'filename':
+        return cls(filename=fn, **kw)
+    if kind == 'filehandle':
+        with open(fn, 'rb') as f:
+            return cls(f, **kw)
+    raise ValueError(kind)
